@@ -8,13 +8,13 @@ CONSTANTS
  MaxParts = 2
  Offs = {1}
  Metas = {"m"}
- Variants = {1,3}
+ Variants = {1,2}
  TimeoutVariants = {1}
  CfgVariants = {1}
  ToolNames = {"cluster_status","cluster_metrics","list_topics","describe_topics","list_groups","describe_group","fetch_offsets","describe_configs"}
  ToolShapes = {"none","known","unknown","special","empty","many"}
  InitTopics <- ToolTopics2
- MaxOps = 3
+ MaxOps = 2
  DevKeyAliasing = FALSE
  DevDeleteKeepsOffsets = FALSE
  DevCloneDropsTimeouts = FALSE
@@ -23,13 +23,13 @@ CONSTANTS
  DevFetchDefaultZero = FALSE
  DevCommitUnchecked = FALSE
  DevToolWrites = FALSE
- DevToolReaps = TRUE
+ DevToolReaps = FALSE
  DevEscapeFastPath = FALSE
  DevEtcdDeletePrefix = FALSE
  DevStaleNextOffset = FALSE
  DevGrowSameCountOk = FALSE
  DevToolPersistsDefault = FALSE
- DevToolGroupDefaults = FALSE
+ DevToolGroupDefaults = TRUE
 INIT Init
 NEXT NextTools
 INVARIANTS C40_Unchanged
